@@ -56,14 +56,20 @@ PROP_FIELDS = {
     'C03': ['field_frequency', 'field_baud_rate', 'field_slot_width', 'field_pch', 'field_roll_off'] + _STRUCT,
     'C05': ['field_chromatic_dispersion', 'field_pmd', 'field_pdl', 'field_latency', 'field_pch', 'field_frequency'] + _STRUCT,
     'C06': ['field_delta_pdb_per_channel', 'field_pch', 'field_frequency', 'field_baud_rate', 'field_slot_width', 'field_pmd', 'field_pdl'] + _STRUCT,
+    # the impairments the penalties are read from, per channel (C13: GSNR minus interpolated CD / PMD / PDL penalties)
+    'C13': ['field_chromatic_dispersion', 'field_pmd', 'field_pdl', 'field_frequency', 'field_baud_rate'] + _SHARES + _STRUCT,
+    # what an amplifier hands on per band (C04: each band raised by its own amplifier, nothing dropped)
+    'C04': ['field_pch', 'field_frequency', 'field_baud_rate', 'field_slot_width'] + _SHARES + _STRUCT + ['kept', 'all_', 'none_', 'some_'],
 }
+_SEL = ['kept_are_selected', 'nch', 'sorted', 'raises', 'no-', 'unexpected', 'frame']
+PROP_FIELDS_SELECT = dict({k: [c for c in v if c.startswith('field_')] + _SEL for k, v in PROP_FIELDS.items()})
 
 SPEC_SORTED = '''
 def srt(x, frequency):
     return x[argsort(frequency)]
 '''
 
-contract('gnpy.core.info.SpectralInformation.__init__', props=['C07', 'C01', 'C03', 'C02', 'C06'], prop_clauses=PROP_FIELDS,
+contract('gnpy.core.info.SpectralInformation.__init__', props=['C07', 'C01', 'C03', 'C02', 'C06', 'C13', 'C05'], prop_clauses=PROP_FIELDS,
          params=dict({'self': obj('SpectralInformation')},
                      **{a: (vec('n', 'str') if a == 'label' else vec('n')) for a in SI_ARGS}),
          spec=SPEC_SORTED,
@@ -91,7 +97,7 @@ FIELDS16 = ['frequency', 'baud_rate', 'slot_width', 'pch', 'signal_ratio', 'ase_
 
 # select_channels: every one of the 16 per-channel arrays of the result is the same-named array of the input,
 # restricted by ONE common index map (mask order-embedding followed by the constructor's sorting permutation)
-contract('gnpy.core.info.select_channels', props=['C07', 'C01'],
+contract('gnpy.core.info.select_channels', props=['C07', 'C01', 'C05', 'C06', 'C03', 'C13'], prop_clauses=PROP_FIELDS_SELECT,
          params={'spectrum': SI(), 'select': vec('n', 'bool')},
          let={'emb': 'mask_index(select)', 'm': 'emb[0]', 'iota': 'emb[1]',
               'pi': 'sort_perm(spectrum._frequency[select])[0]'},
@@ -111,7 +117,7 @@ contract('gnpy.core.info.is_in_band', props=['C07', 'C04'],
          returns=vec_len('len(frequency)', 'bool'), pure=True)
 
 SI2 = SI('n2')
-contract('gnpy.core.info.SpectralInformation.__add__', props=['C07', 'C01', 'C02', 'C05', 'C06'], prop_clauses=PROP_FIELDS,
+contract('gnpy.core.info.SpectralInformation.__add__', props=['C07', 'C01', 'C02', 'C05', 'C06', 'C03', 'C13'], prop_clauses=PROP_FIELDS,
          params={'self': SI(), 'other': SI('n2')},
          let={'pi': 'sort_perm(append(self._frequency, other._frequency))[0]',
               'tot': 'self._number_of_channels + other._number_of_channels'},
@@ -149,7 +155,7 @@ def inband(si, band, i):
          returns=opt(SI('n_demux')), modifies=[])
 
 # band merge of any number of bands (here three: the recursion is exercised twice): nothing is dropped
-contract('gnpy.core.info.muxed_spectral_information', name='gnpy.core.info.muxed_spectral_information[three bands]', props=['C01', 'C07'],
+contract('gnpy.core.info.muxed_spectral_information', name='gnpy.core.info.muxed_spectral_information[three bands]', props=['C01', 'C07', 'C04'],
          params={'input_si_list': lst(SI('na'), SI('nb'), SI('nc'))},
          raises={'SpectrumError': None},
          ensures=[('every_channel_of_every_band_is_in_the_merged_spectrum',
